@@ -133,7 +133,7 @@ def risky(value):
         result = 'ok'
     except ValueError as error:
         result = 'value'
-        obs(type(error).__name__)
+        obs(type(error) is ValueError)
     except (KeyError, IndexError) as error:
         result = error.args[0]
     else:
@@ -351,8 +351,8 @@ class Meta(type):
     pass
 class WithMeta(object, metaclass=Meta):
     pass
-obs([cls.__name__ for cls in Derived.__mro__])
-obs(type(WithMeta).__name__)
+obs([cls is object for cls in Derived.__mro__])
+obs(type(WithMeta) is Meta)
 '''),
     ('assert_debug', '''
 def checked(value):
@@ -383,7 +383,7 @@ except Exception:
     pass
 finally:
     pass
-obs((Empty.__name__, empty()))
+obs((Empty.__mro__[1:], empty()))
 '''),
     ('exceptions_custom', '''
 class AppError(Exception):
@@ -453,7 +453,7 @@ class Box[T]:
 type Alias[K] = dict[K, int]
 obs(first_of([1, 2]))
 obs(Box('content').content)
-obs(Alias.__name__)
+obs(type(Alias).__name__)
 '''),
     ('del_stmt', '''
 values = {'key': 1, 'other': 2}
@@ -498,7 +498,7 @@ class Version:
         return 'Version(%d)' % self.major
     def __lt__(self, other):
         return self.major < other.major
-obs(sorted([Version(2), Version(1)]))
+obs(repr(sorted([Version(2), Version(1)])))
 obs(len({Version(1), Version(1)}))
 '''),
     ('getattr_names', '''
